@@ -205,6 +205,9 @@ class QBitsTensor(QTensor):
 
         if t.shape != self.shape:
             raise NotImplementedError("In-place operations that modify the shape of a QBitsTensor are not supported.")
+        if t.numel() == 0:
+            # Nothing to update
+            return self
         if isinstance(t, QTensor):
             t = t.dequantize()
         t = quantize_weight(t.to(self.dtype), self.qtype, self.axis, self._group_size)
